@@ -1,5 +1,8 @@
 """C14 round trip: hypnotoad-geqdsk -> hypnotoad-recreate-inputs -> hypnotoad-geqdsk.
-usage: roundtrip_run.py <outdir>"""
+usage: roundtrip_run.py <outdir> [cli|regrid]
+mode regrid: the first file is written through the Python API by a non-orthogonal mesh that was regridded (redistributePoints, what the GUI's
+"Regrid" does) before geometry(): the inputs embedded in THAT file must regenerate the grid in it (to the point-refinement tolerance, since a
+regridded mesh and one built from scratch agree only to that)."""
 import json
 import os
 import shutil
@@ -20,6 +23,7 @@ def run(cmd, cwd):
 
 def main():
     outdir = os.path.abspath(sys.argv[1])
+    mode = sys.argv[2] if len(sys.argv) > 2 else "cli"
     os.makedirs(outdir, exist_ok=True)
     sys.path.insert(0, os.path.dirname(os.path.dirname(os.path.dirname(os.path.abspath(__file__)))))
     from harness.drivers import shipped_run  # noqa: F401  (reuse of the analytic geqdsk writer below)
@@ -48,9 +52,21 @@ def main():
             "psi_spacing_separatrix_multiplier": 0.5, "reverse_Bt": True, "grid_file": "first.grd.nc"}
     with open(os.path.join(w1, "in.yaml"), "w") as fh:
         yaml.safe_dump(opts, fh)
-    st = {}
+    st = {"mode": mode}
     script = "from hypnotoad.scripts.hypnotoad_geqdsk import main; main()"
-    rc, tail = run([sys.executable, "-B", "-c", script, gf, "in.yaml"], w1)
+    if mode == "regrid":
+        opts.update({"orthogonal": False, "finecontour_Nfine": 100, "ny_inner_divertor": 2, "ny_outer_divertor": 3, "ny_sol": 4})
+        regrid = {"nonorthogonal_xpoint_poloidal_spacing_length": 0.02, "nonorthogonal_target_all_poloidal_spacing_length": 0.4}
+        api = ("import sys, yaml, warnings; warnings.simplefilter('ignore')\n"
+               "from hypnotoad.cases import tokamak\nfrom hypnotoad.core.mesh import BoutMesh\n"
+               "o = yaml.safe_load(open('in.yaml')); o.pop('grid_file')\n"
+               "eq = tokamak.read_geqdsk(open(%r), settings=dict(o), nonorthogonal_settings=dict(o))\n"
+               "m = BoutMesh(eq, dict(o))\nm.redistributePoints(%r)\nm.geometry()\nm.writeGridfile('first.grd.nc')\n" % (gf, regrid))
+        with open(os.path.join(w1, "in.yaml"), "w") as fh:
+            yaml.safe_dump(opts, fh)
+        rc, tail = run([sys.executable, "-B", "-c", api], w1)
+    else:
+        rc, tail = run([sys.executable, "-B", "-c", script, gf, "in.yaml"], w1)
     st["first_run"] = 1 if rc == 0 and os.path.exists(os.path.join(w1, "first.grd.nc")) else 0
     st["first_tail"] = tail if not st["first_run"] else ""
     st.update(recreate=0, geqdsk_bytes_equal=0, yaml_safe_loads=0, second_run=0, arrays_identical=0, max_abs_diff_q=10 ** 9, second_tail="")
